@@ -115,7 +115,9 @@ type jobState struct {
 	logIdx   int
 	byTok    map[string][]*fakecql.Attempt
 	prepID   map[string][]byte
-	late     map[string][]byte // prep_late_* statements per client connection
+	late     map[string][]byte            // prep_late_* statements per client connection
+	ks2IDs   map[string]map[string][]byte // prep_ks2_* ids per client connection in keyspace ks2
+	ks2Nodes bool
 	nlate    int
 	prepared bool
 	thor     bool
@@ -161,7 +163,7 @@ func startJob(mode string, j *job) (*jobState, error) {
 		ver = maxv
 	}
 	o := env.Options{Nodes: j.Env.Nodes, NumConns: 1, Version: ver, MaxVersion: maxv,
-		Unsupported: j.Env.List, Override: j.Env.Override, Keyspaces: []string{"ks"}}
+		Unsupported: j.Env.List, Override: j.Env.Override, Keyspaces: []string{"ks", "ks2"}}
 	e, err := env.Start(o)
 	if err != nil {
 		return nil, err
@@ -180,10 +182,83 @@ func (js *jobState) close() {
 	js.e.Close()
 }
 
+// clientKs2 is client() for a connection that has switched to the keyspace ks2.
+func (js *jobState) clientKs2(ver, comp string) (*cqlclient.Client, error) {
+	k := ver + "/" + comp + "/ks2"
+	if c := js.clients[k]; c != nil && !c.IsClosed() {
+		return c, nil
+	}
+	delete(js.ks2IDs, k)
+	c, err := js.client(ver, comp+"\x00ks2")
+	if err != nil {
+		return nil, err
+	}
+	delete(js.clients, ver+"/"+comp+"\x00ks2")
+	js.nstream++
+	r, err := c.Roundtrip(frame.NewFrame(c.Version, int16(22000+js.nstream%1000), &message.Query{Query: "USE ks2",
+		Options: &message.QueryOptions{Consistency: primitive.ConsistencyLevelOne}}), "", "setup", 10*time.Second)
+	if err != nil || r.Kind != "setks" {
+		c.Close()
+		return nil, fmt.Errorf("USE ks2: %v %v", err, r)
+	}
+	js.clients[k] = c
+	return c, nil
+}
+
+// ensureKs2 prepares, on a connection whose keyspace is ks2, the very statement texts that ensurePrepared prepared on a
+// connection without keyspace: the backend gives them other ids (the id covers the keyspace), and the proxy must learn
+// what THOSE ids are too.  The nodes get them directly as well, through connections in ks2.
+func (js *jobState) ensureKs2(c *cqlclient.Client, key string) (map[string][]byte, error) {
+	if ids := js.ks2IDs[key]; ids != nil {
+		return ids, nil
+	}
+	ids := map[string][]byte{}
+	for sel, text := range map[string]string{"prep_ks2_select": prepSelectText, "prep_ks2_write": prepWriteText} {
+		id, err := js.prepareVia(c, text)
+		if err != nil {
+			return nil, err
+		}
+		ids[sel] = id
+	}
+	if !js.ks2Nodes {
+		for i, ip := range js.e.IPs {
+			d, err := cqlclient.Dial(js.e.C.ContactPoint(ip), 9200+i, js.e.T)
+			if err != nil {
+				return nil, err
+			}
+			d.Quiet = true
+			if err := d.Startup(primitive.ProtocolVersion4, ""); err != nil {
+				d.Close()
+				return nil, err
+			}
+			if r, err := d.Roundtrip(frame.NewFrame(primitive.ProtocolVersion4, 5, &message.Query{Query: "USE ks2", Options: &message.QueryOptions{Consistency: primitive.ConsistencyLevelOne}}), "", "setup", 5*time.Second); err != nil || r.Kind != "setks" {
+				d.Close()
+				return nil, fmt.Errorf("USE ks2 on the node: %v %v", err, r)
+			}
+			for _, text := range []string{prepSelectText, prepWriteText} {
+				if _, err := js.prepareVia(d, text); err != nil {
+					d.Close()
+					return nil, err
+				}
+			}
+			d.Close()
+		}
+		js.ks2Nodes = true
+	}
+	if js.ks2IDs == nil {
+		js.ks2IDs = map[string]map[string][]byte{}
+	}
+	js.ks2IDs[key] = ids
+	return ids, nil
+}
+
 func (js *jobState) client(ver, comp string) (*cqlclient.Client, error) {
 	k := ver + "/" + comp
 	if c := js.clients[k]; c != nil && !c.IsClosed() {
 		return c, nil
+	}
+	if i := strings.IndexByte(comp, 0); i >= 0 {
+		comp = comp[:i]
 	}
 	cn := comp
 	if cn == "none" {
@@ -485,7 +560,14 @@ func (js *jobState) runOnce(x *exchange, retry int) *obs {
 		o.St, o.Err = st, msg
 		return o
 	}
+	ks2 := strings.HasPrefix(x.Sel, "prep_ks2_")
 	c, err := js.client(x.Ver, x.Comp)
+	if err == nil && ks2 {
+		// the unqualified statements were prepared without keyspace first
+		if err = js.ensurePrepared(c); err == nil {
+			c, err = js.clientKs2(x.Ver, x.Comp)
+		}
+	}
 	if err != nil {
 		return fail("generr", "client: "+err.Error())
 	}
@@ -495,6 +577,19 @@ func (js *jobState) runOnce(x *exchange, retry int) *obs {
 		}
 	}
 	prepID := js.prepID
+	if ks2 {
+		ids, err := js.ensureKs2(c, x.Ver+"/"+x.Comp+"/ks2")
+		if err != nil {
+			return fail("generr", "ks2 prepare: "+err.Error())
+		}
+		prepID = map[string][]byte{}
+		for k, v := range js.prepID {
+			prepID[k] = v
+		}
+		for k, v := range ids {
+			prepID[k] = v
+		}
+	}
 	if strings.HasPrefix(x.Sel, "prep_late_") {
 		id, err := js.ensureLate(c, x.Ver+"/"+x.Comp, x.Sel)
 		if err != nil {
